@@ -1,5 +1,8 @@
-"""C03 — exactly-once destruction. Layer R (runtime types, Engine R); layer E (generated C/C++ API histories) is added by e2e."""
-from .. import rt
+"""C03 — exactly-once destruction. Layer R (runtime types, Engine R) and layer E (generated histories over the generated C API)."""
+import json, os, re
+from hypothesis import strategies as st
+from .. import rt, build, pbt, e2e
+from ..gen import ir, strategies as S
 
 RULE_R = ("layer R: proptest-generated op sequences (create Result/Option/Box<[T]>/NULL owned slice/Box<str>/callback, convert "
           "std<->Diplomat representation via each public API, clone, as_ref/deref, drop) over payloads whose Drop records an id; "
@@ -28,14 +31,104 @@ def run_layer_r(ctx):
     return rt.run_legs("C03", legs(ctx), ctx.seed)
 
 
+RULE_E = ("layer E: Hypothesis-generated programs (C profile, no borrowed returns) whose opaque types log their drop, and generated *histories* over the generated C API: "
+          "each step calls a drawn method; opaque arguments are borrowed from a pool of live objects (or freshly created through a constructor), owned opaques returned "
+          "directly / in Option / in Result arms / inside out-structs join the pool, owned slices and strings are allocated with diplomat_alloc and handed over, "
+          "objects are destroyed at drawn points and all remaining ones at the end. Oracle: the Rust drop log equals the driver's destroy order exactly (each object once, "
+          "at its destroy call, never during a borrow); gcc AddressSanitizer + LeakSanitizer + UBSan report nothing. A case = one history step. "
+          "Non-trivial history: contains a destroy of an object that was borrowed earlier, a call borrowing a long-lived object, and an owned value returned to C.")
+ASSUME += [
+    "layer E generates only histories a correct caller may perform (no use after destroy, no aliasing of &mut); the C++ unique_ptr half of the property is exercised by C02's driver",
+]
+
+
+@st.composite
+def histories(draw):
+    p = S.profile_for(["c"], callbacks=False, keywords=False, modules=1, max_types=6, max_methods=4, max_params=3, lifetimes=False, utf8strs=False)
+    prog = draw(S.programs(p))
+    e2e.add_support_methods(prog)
+    plan, history, stats = e2e.plan_history(draw, prog, draw(st.integers(8, 30)))
+    return prog, plan, history, stats
+
+
+def evaluate_history(art, work, prog, plan, history):
+    res = e2e.build_and_run(art, work, prog, plan, history=history, leaks=True)
+    fails = []
+    if res["status"] != "ran":
+        if res["status"] in ("rustc-failed", "cc-failed"):
+            fails.append((res["status"], "harness build failed: " + res["stderr"][-1200:]))
+        return fails, res
+    if res["rc"] != 0 or "ERROR: AddressSanitizer" in res["stderr"] or "ERROR: LeakSanitizer" in res["stderr"] or "runtime error:" in res["stderr"]:
+        fails.append(("sanitizer", "memory error or leak reported (exit %s):\n%s" % (res["rc"], res["stderr"][-1800:])))
+    lines = res["stdout"].split("\n")
+    drops = [l for l in lines if l.startswith("drops ")]
+    got = [int(x) for x in drops[0][len("drops "):].split(",") if x] if drops else []
+    want = list(history["drop_order"])
+    if got != want and not fails:
+        dup = sorted({x for x in got if got.count(x) > 1})
+        missing = [x for x in want if x not in got]
+        extra = [x for x in got if x not in want]
+        fails.append(("drops", "Rust dropped %s but the driver destroyed %s (dropped twice: %s, never dropped: %s, dropped without a destroy: %s)" % (got, want, dup, missing, extra)))
+    exp_rets, exp_logs = e2e.expected_lines(prog, plan, history)
+    rets = [l for l in lines if l.startswith("ret ")]
+    logs = [l.rstrip() for l in lines if l.startswith("call ")]
+    if not fails and (rets != exp_rets or logs != [l.rstrip() for l in exp_logs]):
+        bad = next(((g, w) for g, w in zip(rets + logs, exp_rets + [l.rstrip() for l in exp_logs]) if g != w), ("<count>", "<count>"))
+        fails.append(("values", "history observed `%s`, expected `%s`" % bad))
+    return fails, res
+
+
+def worker_e(widx, seed, params):
+    art = build.ensure_repo_artifacts()
+    work = build.workdir("c03-w%d" % widx)
+    acc = pbt.Acc("C03", max_violations=4)
+
+    def body(case):
+        if acc.full():
+            return
+        prog, plan, history, stats = case
+        fails, res = evaluate_history(art, work, prog, plan, history)
+        if res["status"] != "ran" and not fails:
+            acc.labels["not-accepted:" + res["status"]] += 1
+            return
+        nt = stats["destroy_after_borrow"] > 0 and stats["borrow_of_live"] > 0 and stats["owned_returned"] > 0
+        for i, (pi, k) in enumerate(history["order"]):
+            acc.case([ir.dumps(prog), json.dumps(history, sort_keys=True), i], nt, ["history-step"], sample={"history_steps": len(history["order"]), "stats": stats, "destroy_order": history["drop_order"][:12]})
+        for kx, v in stats.items():
+            acc.labels["history:" + kx] += 1 if v else 0
+        for sig, msg in fails:
+            if any(v["signature"] == sig for v in acc.violations):
+                continue
+            acc.violation("%s\n--- lib.rs (bridge part) ---\n%s" % (msg, ir.render_program(prog)[:3000]), {"program": prog, "plan": plan, "history": history, "layer": "E"}, signature=sig)
+
+    pbt.explore(histories(), body, params["n"], seed)
+    build.rm_workdir(work)
+    return acc.result()
+
+
 def run(ctx):
     m = run_layer_r(ctx)
+    n = 10 if ctx.quick else 250
+    me = pbt.run_workers("checks.c03", "worker_e", 14, ctx.seed + 11, {"n": n})
+    labels = dict(m["labels"])
+    labels.update(me["labels"])
     cov = {
-        "evaluations": m["evaluations"], "distinct_nontrivial": m["distinct_nontrivial"], "rule": RULE_R,
-        "samples": m["samples"], "labels": m["labels"], "legs": m["legs"],
+        "evaluations": m["evaluations"] + me["evaluations"], "distinct_nontrivial": m["distinct_nontrivial"] + me["distinct_nontrivial"],
+        "rule": RULE_R + " || " + RULE_E, "samples": m["samples"][:2] + me["samples"][:2], "labels": labels, "legs": m["legs"],
+        "layer_e_history_steps": me["evaluations"],
     }
-    return {"coverage": cov, "assumptions": ASSUME, "violations": m["violations"]}
+    return {"coverage": cov, "assumptions": ASSUME, "violations": m["violations"] + me["violations"]}
 
 
 def replay(ctx):
+    d = json.load(open(ctx.replay))
+    c = d.get("case", {})
+    if isinstance(c, dict) and c.get("layer") == "E":
+        art = build.ensure_repo_artifacts()
+        work = build.workdir("c03-replay")
+        fails, res = evaluate_history(art, work, c["program"], c["plan"], c["history"])
+        build.rm_workdir(work)
+        for s_, m in fails:
+            print(s_, m[:1500])
+        return {"violations": [{"replay": ctx.replay, "message": m[:1200]} for s_, m in fails]}
     return rt.replay("C03", ctx.replay)
